@@ -56,6 +56,8 @@ type Case struct {
 	Cands []string `json:"cands"` // candidates in declaration order; each "T" or "T1,T2"
 	Op    string   `json:"op,omitempty"`
 	Under bool     `json:"under,omitempty"` // identifiers contain '_' (other separator in the Gopo_ constant name)
+	// UnderMask: which identifiers carry the '_' (1 overload name, 2 receiver type, 4 candidate names); 0 = all
+	UnderMask int `json:"under_mask,omitempty"`
 }
 
 // key names the declaration path (plain func/method overloads, overloads inside a class file,
@@ -64,6 +66,9 @@ func (k Case) key() string {
 	u := ""
 	if k.Under {
 		u = "/names-with-underscore"
+		if k.UnderMask != 0 {
+			u += fmt.Sprintf("(mask %d)", k.UnderMask)
+		}
 	}
 	switch k.Kind {
 	case "class1":
@@ -166,14 +171,20 @@ var cmpOps = map[string]bool{"==": true, "!=": true, "<": true, "<=": true, ">":
 // gen renders the declarations and the unit body of a case. classDecls is the text that belongs
 // into the class file Kls.gox (kind class1), decls the text for main.xgo.
 func gen(k Case) (decls, classDecls, body, want string) {
-	us := ""
-	if k.Under {
-		us = "_"
+	mask := k.UnderMask
+	if mask == 0 {
+		mask = 7
 	}
-	ov := fmt.Sprintf("ov%s%d", us, k.ID)
-	recv := fmt.Sprintf("rc%s%d", us, k.ID)
-	fn := func(c string) string { return ov + us + "f" + candName(c, recv) } // named function of a candidate
-	mn := func(c string) string { return "m" + us + candName(c, recv) }      // method of a candidate
+	usIf := func(bit int) string {
+		if k.Under && mask&bit != 0 {
+			return "_"
+		}
+		return ""
+	}
+	ov := fmt.Sprintf("ov%s%d", usIf(1), k.ID)
+	recv := fmt.Sprintf("rc%s%d", usIf(2), k.ID)
+	fn := func(c string) string { return ov + usIf(4) + "f" + candName(c, recv) } // named function of a candidate
+	mn := func(c string) string { return "m" + usIf(4) + candName(c, recv) }      // method of a candidate
 	var d, b, w strings.Builder
 	tag := func(c string) string { return strings.ReplaceAll(c, recvT, "self") }
 	printTag := func(c string) string { return fmt.Sprintf("fmt.Println(%q)", tag(c)) }
@@ -490,8 +501,16 @@ func enumerate(thorough bool) []Case {
 		}
 	}
 	// names with '_': the Gopo_ constant uses another separator (cl: overloadName; gogen: checkTypeMethod)
+	// the '_' goes into all identifiers and into each kind of identifier alone (overload name, receiver type,
+	// candidate names): the separator rule looks at the receiver and at the name separately
+	masks := []int{0, 2, 1}
+	if thorough {
+		masks = []int{0, 1, 2, 4, 3, 5, 6}
+	}
 	under := func(kind, style string, cands []string, op string) {
-		cases = append(cases, Case{ID: len(cases), Kind: kind, Style: style, Cands: cands, Op: op, Under: true})
+		for _, m := range masks {
+			cases = append(cases, Case{ID: len(cases), Kind: kind, Style: style, Cands: cands, Op: op, Under: true, UnderMask: m})
+		}
 	}
 	n = 0
 	for size := 2; size <= 3; size++ {
@@ -687,7 +706,7 @@ func main() {
 	}
 	c.Extra["dispatched_calls"] = calls
 	c.Extra["binary_operators"] = binOps
-	c.Rule = "parameter types {int,string,float64,bool,[]int,*foo}. set1: every subset of size 2..4 (50) in every declaration order (510) x styles {func literals, named funcs, pointer-receiver methods (T).m, value-receiver methods (T).m, literal/named alternating, named/literal alternating}; pair2: two 2-parameter candidates differing in exactly one position ((A,C),(B,C) and (C,A),(C,B), all A<B, all C, both orders) x three of the six styles per ordering (alternating); grid2: the four candidates (A,A),(A,B),(B,A),(B,B) for all A<B in all 24 orders x three of the six styles per ordering (alternating); class1: set1 declared inside a class file Kls.gox (literal, named, mixed); op: `func (R).OP = (...)` with the table (R,int),(R,R),(int,R) of overload.md, all subsets of size 2..3 in all orders, for 21 binary operators (for `*` also (R,string),(string,R), subsets up to 4); opdirect: the directly defined unary and binary operators of overload.md; names-with-underscore: set1 (sizes 2..3), class1 and the operator tables again with '_' in the overload, receiver, function and method names. Every overload is called once per candidate with typed variables, in a canonical order independent of the declaration order. quick keeps every ordering of the sets of 2 and 3 candidates and thins the styles per ordering (the style rotates over the orderings), and thins size-4 sets, pair2, grid2, class1 and the operators. distinct_nontrivial = cases with at least two candidates"
+	c.Rule = "parameter types {int,string,float64,bool,[]int,*foo}. set1: every subset of size 2..4 (50) in every declaration order (510) x styles {func literals, named funcs, pointer-receiver methods (T).m, value-receiver methods (T).m, literal/named alternating, named/literal alternating}; pair2: two 2-parameter candidates differing in exactly one position ((A,C),(B,C) and (C,A),(C,B), all A<B, all C, both orders) x three of the six styles per ordering (alternating); grid2: the four candidates (A,A),(A,B),(B,A),(B,B) for all A<B in all 24 orders x three of the six styles per ordering (alternating); class1: set1 declared inside a class file Kls.gox (literal, named, mixed); op: `func (R).OP = (...)` with the table (R,int),(R,R),(int,R) of overload.md, all subsets of size 2..3 in all orders, for 21 binary operators (for `*` also (R,string),(string,R), subsets up to 4); opdirect: the directly defined unary and binary operators of overload.md; names-with-underscore: set1 (sizes 2..3), class1 and the operator tables again with '_' in all of the overload, receiver and candidate names and in each kind of name alone (quick: all / receiver only / overload name only; thorough: all 7 non-empty subsets). Every overload is called once per candidate with typed variables, in a canonical order independent of the declaration order. quick keeps every ordering of the sets of 2 and 3 candidates and thins the styles per ordering (the style rotates over the orderings), and thins size-4 sets, pair2, grid2, class1 and the operators. distinct_nontrivial = cases with at least two candidates"
 	c.Assumptions = []string{
 		"arguments are typed variables only; untyped constants (accepted by several candidates, resolved by declaration order) are outside the premise 'pairwise distinguishable' and are not generated",
 		"expected output is computed by the generator: the tag of the candidate whose parameter types equal the argument types, one line per call",
